@@ -254,6 +254,100 @@ def opParse (j : Json) : Except String Json := do
   | .error e => return Json.mkObj [("err", Json.arr (e.map fun m => Json.mkObj [("kind", m.kind), ("text", m.text),
       ("file", optStrJson m.file), ("line", match m.line with | some l => Json.num ⟨(l : Int), 0⟩ | none => Json.null)]).toArray)]
 
+namespace RJ
+open Refl
+
+def str (j : Json) : Except String Refl.Str := J.natList j
+
+def optStr (j : Json) (k : String) : Except String (Option Refl.Str) :=
+  match j.getObjVal? k with
+  | .ok .null => pure none
+  | .ok v => do return some (← str v)
+  | .error _ => pure none
+
+def optNat (j : Json) (k : String) : Except String (Option Nat) :=
+  match j.getObjVal? k with
+  | .ok .null => pure none
+  | .ok v => do return some (← v.getNat?)
+  | .error _ => pure none
+
+def pos (j : Json) (k : String) : Except String (Option RMeta) :=
+  match j.getObjVal? k with
+  | .ok .null => pure none
+  | .error _ => pure none
+  | .ok m => do
+    return some { line := ← m.getObjValAs? Int "line", endLine := ← m.getObjValAs? Int "end_line",
+                  column := ← m.getObjValAs? Int "column", endColumn := ← m.getObjValAs? Int "end_column",
+                  startPos := ← m.getObjValAs? Int "start_pos", endPos := ← m.getObjValAs? Int "end_pos",
+                  filename := ← str (← m.getObjVal? "filename") }
+
+partial def rty (j : Json) : Except String RTy := do
+  match (← j.getObjValAs? String "k") with
+  | "u" => return .u (← j.getObjValAs? Nat "n")
+  | "i" => return .i (← j.getObjValAs? Nat "n")
+  | "f32" => return .f32
+  | "f64" => return .f64
+  | "str" => return .str
+  | "enum" => return .enum (← str (← j.getObjVal? "name"))
+  | "struct" => return .struct (← str (← j.getObjVal? "name"))
+  | "arr" => return .arr (← rty (← j.getObjVal? "t")) (← j.getObjValAs? Nat "n")
+  | "dyn" => return .dyn (← rty (← j.getObjVal? "t"))
+  | "opt" => return .opt (← rty (← j.getObjVal? "t"))
+  | k => throw s!"bad rty {k}"
+
+partial def xv (j : Json) : Except String XV :=
+  match j with
+  | .num n => .ok (.int n.mantissa)
+  | .arr a => do
+    let vs ← a.toList.mapM xv
+    return .arr (vs.foldr XV.cons XV.nil)
+  | .obj _ => do
+    match j.getObjVal? "f" with
+    | .ok f => return .flt (← str f)
+    | .error _ => return .str (← str (← j.getObjVal? "s"))
+  | _ => .error "bad xv"
+
+def dict (j : Json) : Except String (List (Refl.Str × XV)) := do
+  let a ← j.getArr?
+  a.toList.mapM fun p => do
+    let q ← p.getArr?
+    if h : q.size = 2 then return (← str q[0], ← xv q[1]) else throw "bad dict pair"
+
+def schema (j : Json) : Except String RSchema := do
+  let structs ← (J.arrOr j "structs").toList.mapM fun s => do
+    let fs ← (J.arrOr s "fields").toList.mapM fun f => do
+      return ({ name := ← str (← f.getObjVal? "name"), id := ← f.getObjValAs? Int "id",
+                ty := ← rty (← f.getObjVal? "ty"), unit := ← optStr f "unit", min := ← optNat f "min",
+                max := ← optNat f "max", pos := ← pos f "pos" } : RField)
+    return ({ name := ← str (← s.getObjVal? "name"), fields := fs, pos := ← pos s "pos" } : RStruct)
+  let enums ← (J.arrOr j "enums").toList.mapM fun e => do
+    let items ← (J.arrOr e "items").toList.mapM fun x => do
+      return ({ name := ← str (← x.getObjVal? "name"), value := ← x.getObjValAs? Int "value", pos := ← pos x "pos" } : REnumerator)
+    return ({ name := ← str (← e.getObjVal? "name"), items := items, pos := ← pos e "pos" } : REnum)
+  let impls ← (J.arrOr j "impls").toList.mapM fun i => do
+    let sigs ← (J.arrOr i "signals").toList.mapM fun sb => do
+      return ({ name := ← str (← sb.getObjVal? "name"), fields := ← dict (← sb.getObjVal? "fields"), pos := ← pos sb "pos" } : RSignal)
+    return ({ name := ← str (← i.getObjVal? "name"), protocol := ← str (← i.getObjVal? "protocol"),
+              type := ← str (← i.getObjVal? "type"), fields := ← dict (← i.getObjVal? "fields"),
+              signals := sigs, pos := ← pos i "pos" } : RImpl)
+  let services ← (J.arrOr j "services").toList.mapM fun s => do
+    let ms ← (J.arrOr s "methods").toList.mapM fun m => do
+      return ({ name := ← str (← m.getObjVal? "name"), id := ← m.getObjValAs? Int "id",
+                input := ← str (← m.getObjVal? "input"), output := ← str (← m.getObjVal? "output"),
+                pos := ← pos m "pos" } : RMethod)
+    return ({ name := ← str (← s.getObjVal? "name"), id := ← s.getObjValAs? Int "id", methods := ms, pos := ← pos s "pos" } : RService)
+  return { version := ← j.getObjValAs? Int "version", structs := structs, enums := enums, impls := impls, services := services }
+
+end RJ
+
+/-- reflect: the reflection record of a schema, its well-formedness for `reflTy`, its canonical bytes -/
+def opReflect (j : Json) : Except String Json := do
+  let S ← RJ.schema (← j.getObjVal? "schema")
+  let v := Refl.reflect S
+  let ok := wf Refl.reflTy v
+  return Json.mkObj [("record", J.valToJson v), ("wf", ok),
+    ("bytes", if ok then J.natsToJson (encBytes Refl.reflTy v) else Json.null)]
+
 def opSched (j : Json) : Except String Json := do
   let periods ← j.getObjValAs? (Array Int) "periods"
   let times ← j.getObjValAs? (Array Nat) "times"
@@ -273,6 +367,7 @@ def dispatch (j : Json) : Except String Json := do
   | "gate" => opGate j
   | "canc" => opCanC j
   | "parse" => opParse j
+  | "reflect" => opReflect j
   | _ => throw s!"unknown op {op}"
 
 partial def loop (hin : IO.FS.Stream) (hout : IO.FS.Stream) : IO Unit := do
